@@ -108,15 +108,16 @@ Definition fld_hval (f : fld) : hval :=
   | FElg lx lo mx mo => HWithDomain elg_domain (Some (pt_bytes lx lo ++ pt_bytes mx mo))
   end.
 
-(* range conditions under which the byte encoding of a field loses nothing *)
+(* range conditions under which the byte encoding of a field loses nothing (and every length fits the 64-bit
+   length prefix of the framing) *)
 Definition fld_wf (f : fld) : bool :=
   match f with
   | FPed n s t => (0 <=? n) && (n <? 2 ^ 2048) && (0 <=? s) && (s <? 2 ^ 2048) && (0 <=? t) && (t <? 2 ^ 2048)
-  | FPk n => 0 <=? n
+  | FPk n => (0 <=? n) && (n <? 2 ^ 4096)
   | FCt c => (0 <=? c) && (c <? 2 ^ 4096)
-  | FNat k v => (0 <=? v) && (v <? 2 ^ (8 * Z.of_nat k))
-  | FMod n => 0 <=? n
-  | FBig _ => true
+  | FNat k v => (0 <=? v) && (v <? 2 ^ (8 * Z.of_nat k)) && (Z.of_nat k <? 2 ^ 32)
+  | FMod n => (0 <=? n) && (n <? 2 ^ 4096)
+  | FBig z => Z.abs z <? 2 ^ 4096
   | FSc s => (0 <=? s) && (s <? 2 ^ 256)
   | FPt x _ => (0 <=? x) && (x <? 2 ^ 256)
   | FElg lx _ mx _ => (0 <=? lx) && (lx <? 2 ^ 256) && (0 <=? mx) && (mx <? 2 ^ 256)
